@@ -198,11 +198,12 @@ structure HostConf where
   hostTagMap : List (String × String)   -- host-tag => product
   deriving Repr, DecidableEq
 
-/-- inner loop of the host2HostTag conversion (`if host2HostTag[hostName] != "" { return dup }`) -/
+/-- inner loop of the host2HostTag conversion (`if _, dup := host2HostTag[hostName]; dup { return dup }`, after the
+    repair of the empty-tag case: a host name is a duplicate when the key is PRESENT, whatever tag it maps to) -/
 def addHosts (tag : String) : List String → List (String × String) → Res (List (String × String))
   | [], m => .ok m
   | h :: hs, m =>
-    if (mapGet m h).getD "" != "" then .err else addHosts tag hs (mapSet m h tag)
+    if mapHas m h then .err else addHosts tag hs (mapSet m h tag)
 
 def buildHostMap : List (String × Option (List String)) → List (String × String) → Res (List (String × String))
   | [], m => .ok m
